@@ -299,6 +299,10 @@ def mw_tally(history, min_len=4, max_len=21):
                 run = ''
     return t
 
+def lower_keep_length(s):
+    """Lower-case character by character; a character whose lower() has another length (U+0130) stays as it is."""
+    return ''.join(c.lower() if len(c.lower()) == 1 else c for c in s)
+
 LABEL = re.compile(r'^(?:[ADOK][0-9]+|Y1|X1|E|W)$')
 
 def validate_segmentation(password, sections, tally, threshold=5, min_len=4, max_len=21):
@@ -313,7 +317,7 @@ def validate_segmentation(password, sections, tally, threshold=5, min_len=4, max
         if seg is None or seg == '':
             bad.append(('empty', f'empty segment with label {lab}')); return bad
         piece = password[pos:pos + len(seg)]
-        if (piece.lower() if lab == 'W' else piece) != seg:
+        if (seg not in (piece.lower(), lower_keep_length(piece))) if lab == 'W' else (piece != seg):
             bad.append(('tiling', f'segment {seg!r} ({lab}) does not continue the password at offset {pos}: found {piece!r}')); return bad
         pos += len(seg)
     if pos != len(password):
